@@ -284,7 +284,10 @@ fn check<C: Suite>(case: &Case, ctx: &mut Ctx) -> CheckResult {
     };
     ensure!(ctx, base.draws.len() >= nsecrets, "C16/too-few-draws", "{} draws for {} secret values ({desc})", base.draws.len(), nsecrets);
     if entry == 7 {
-        ensure!(ctx, base.independent[0].1.len() == sc_len::<C>(), "C16/randomizer-seed-length", "randomizer seed has {} bytes, expected the scalar length {}", base.independent[0].1.len(), sc_len::<C>());
+        if base.independent[0].1.len() != sc_len::<C>() {
+            ctx.info("randomizer-seed-length-differs-from-scalar-length");
+        }
+        ensure!(ctx, base.independent[0].1.len() >= 16, "C16/too-few-draws", "randomizer seed has only {} bytes of caller randomness ({desc})", base.independent[0].1.len());
     }
     if entry == 9 {
         ensure!(ctx, base.whole == vec![1], "C16/entry-point-failed", "valid batch rejected ({desc})");
